@@ -315,3 +315,313 @@ def random_scripts(rng, n, length):
                 steps.append(run(one()))
         out.append(steps)
     return out
+
+
+# ------------------------------------------------------------------------------------------------ replay
+def _run_chunk(ctx, binary, scripts, d, tag, timeout):
+    """one driver process over `scripts` (sequential, one service per script).  Returns (events, finished?, output tail)"""
+    import subprocess
+    sp_, tp = os.path.join(d, "scripts_%s.ndjson" % tag), os.path.join(d, "trace_%s.ndjson" % tag)
+    vf.write_ndjson(sp_, scripts)
+    if os.path.exists(tp):
+        os.remove(tp)
+    e = ctx.go_env({"VERIF_SCRIPTS": sp_, "VERIF_TRACE_OUT": tp})
+    lf = os.path.join(d, "out_%s.txt" % tag)
+    with open(lf, "w") as fh:
+        try:
+            p = subprocess.run([binary, "-test.run", DRV, "-test.count=1", "-test.timeout", "%ds" % timeout], cwd=vf.REPO, env=e,
+                               stdout=fh, stderr=subprocess.STDOUT, timeout=timeout + 60)
+            rc = p.returncode
+        except subprocess.TimeoutExpired:
+            rc = -9
+    out = open(lf, errors="replace").read()
+    if "VERIF-INFRA" in out:
+        raise vf.Infra("driver infrastructure error:\n" + "\n".join([l for l in out.splitlines() if "VERIF-INFRA" in l][:5]))
+    evs = vf.read_ndjson(tp) if os.path.exists(tp) else []
+    return evs, ("VERIF-DONE" in out), out[-6000:], rc
+
+
+def replay(ctx, binary, scripts, name, shards, gl, timeout=900):
+    """sharded replay; a process that dies is C19's concern: the script it died in is re-run alone (see run_part)"""
+    d = ctx.sub("gl_drv_" + name)
+    chunks = [scripts[i::shards] for i in range(shards)]
+    chunks = [c for c in chunks if c]
+    events, crashes = [], []
+
+    def work(i, part):
+        todo, evs_all, crashed = list(part), [], []
+        rounds = 0
+        while todo and rounds < 4:
+            rounds += 1
+            evs, fin, tail, rc = _run_chunk(ctx, binary, todo, d, "%d_%d" % (i, rounds), timeout)
+            blocks = vf.split_traces(evs)
+            done_ids = [b for b, _ in blocks]
+            for e in evs:
+                evs_all.append(e)
+            if fin:
+                todo = []
+                break
+            # the process died (or timed out) in the first script that has no block
+            rest = [s_ for s_ in todo if s_["id"] not in done_ids]
+            if not rest:
+                break
+            crashed.append({"script": rest[0], "tail": tail, "rc": rc})
+            todo = rest[1:]
+        return evs_all, crashed
+    res = _parallel([lambda i=i, c=c: work(i, c) for i, c in enumerate(chunks)], shards)
+    for evs, cr in res:
+        events.extend(evs)
+        crashes.extend(cr)
+    return events, crashes
+
+
+# ------------------------------------------------------------------------------------------------ validation
+def _tlc_trace(ctx, mod, events, name, collect=False, strict=True, timeout=600):
+    d = ctx.sub("gl_val_" + name)
+    tp = os.path.join(d, "trace.ndjson")
+    vf.write_ndjson(tp, events)
+    env = {"VERIF_TRACE": tp, "VERIF_STRICT": "1" if strict else "0"}
+    if collect:
+        env["VERIF_COLLECT"] = "1"
+    r = ctx.tlc(mod[0], mod[1], name="gl_" + name, workers=1, env=env, timeout=timeout, allow_violation=True, count=False, heap="4g")
+    rej = r.printed.get("REJECTED")
+    if r.violated is None and r.error is None and r.rc == 0 and not rej:
+        return True, None, r
+    if rej:
+        return False, rej[0], r
+    if r.violated and r.violated != "Postcondition":
+        return False, {"invariant": r.violated}, r
+    raise vf.Infra("trace validation broke (%s): %s\n%s" % (mod[0], r.error or r.violated, "\n".join(r.out.splitlines()[-30:])))
+
+
+def _flat(blocks):
+    flat, index = [], []
+    for bid, evs in blocks:
+        index.append((len(flat), bid))
+        flat.append({"ev": "reset", "id": bid})
+        flat.extend(evs)
+    return flat, index
+
+
+def _slim(e):
+    """what TLC reads of a line (stacks and messages stay in the python side)"""
+    e = {k: v for k, v in e.items() if k not in ("msg", "site", "stack", "left")}
+    if "ops" in e:
+        e["ops"] = [{k: v for k, v in o.items() if k not in ("msg", "site", "stack")} for o in e["ops"]]
+    return e
+
+
+def conformance(ctx, blocks, name, max_rejects=8):
+    """full spec, strict: returns (accepted ids, [drift records])"""
+    cur, drift, rounds = [(b, [_slim(e) for e in evs]) for b, evs in blocks], [], 0
+    while cur:
+        rounds += 1
+        flat, index = _flat(cur)
+        ok, info, _ = _tlc_trace(ctx, CONF, flat, "%s_conf%d" % (name, rounds))
+        if ok:
+            break
+        if "high" not in info:
+            raise vf.Infra("an invariant of the specification failed on an observed trace: %s" % info)
+        pos = info["high"]
+        bi = max(i for i, (start, _) in enumerate(index) if start <= pos)
+        bid, evs = cur[bi]
+        drift.append({"id": bid, "at": pos - index[bi][0] - 1, "line": info.get("line")})
+        cur = cur[:bi] + cur[bi + 1:]
+        if len(drift) >= max_rejects:
+            cur = cur[:bi]      # the rest is not claimed as validated
+            break
+    return [b for b, _ in cur], drift
+
+
+def monitor(ctx, blocks, name):
+    """design clauses on the observed values, collect mode: [(script id, line in block, clauses, line)]"""
+    flat, index = _flat([(b, [_slim(e) for e in evs]) for b, evs in blocks])
+    ok, info, r = _tlc_trace(ctx, MON, flat, name + "_mon", collect=True, strict=False)
+    if not ok:
+        raise vf.Infra("monitor did not consume the trace: %s" % str(info)[:400])
+    out = []
+    for b in r.printed.get("BAD", []):
+        pos = b["at"] - 1
+        bi = max(i for i, (start, _) in enumerate(index) if start <= pos)
+        out.append((index[bi][1], pos - index[bi][0] - 1, sorted(b["clauses"]), b["line"]))
+    return out
+
+
+def _text(script):
+    def one(s_):
+        if s_["act"] == "run":
+            return "run[" + " || ".join("%s(%s)" % (o["s"], ",".join(str(v) for v in (o["d"], o.get("y", 0)) if v not in ("-", 0))) for o in s_["a"]["ops"]) + "]"
+        if s_["act"] == "start":
+            return "c%d:%s(%s)" % (s_["x"], s_["s"], ",".join(str(v) for v in (s_["d"], s_.get("y", 0)) if v not in ("-", 0)))
+        if s_["act"] == "step":
+            return "c%d:step" % s_["x"]
+        return s_["act"]
+    return " ".join(one(s_) for s_ in script["steps"])
+
+
+def _panics(evs):
+    """recovered panics of service methods in a block: [(line index, op, g, message, site, stack)]"""
+    out = []
+    for i, e in enumerate(evs):
+        reqs = e.get("ops") or ([e] if e.get("ev") in ("start", "step") else [])
+        for o in reqs:
+            if o.get("r") == "panic":
+                out.append((i, o.get("op"), o.get("g"), o.get("msg", ""), o.get("site", ""), o.get("stack", "")))
+        st_ = e.get("st") or {}
+        for g, v in (st_.get("lst") or {}).items():
+            if v == -2:
+                out.append((i, "listm(probe)", g, "panic in GroupMessageList", "", ""))
+    return out
+
+
+# ------------------------------------------------------------------------------------------------ entry
+def run_part(ctx, replay_obj=None):
+    t0 = time.time()
+    quick = ctx.tier == "quick"
+    gl = {"module": "service group lifecycle (not a listed property: findings are observations / drift; a recovered panic is routed to C19)",
+          "degraded": []}
+    ctx.extra["group_lifecycle"] = gl
+    ov, placed = build_overlay(ctx)
+    gl["gates_placed"] = placed
+    binres = {}
+
+    def build():
+        binres["bin"] = ctx.go_test_compile(PKG, ov, name="grouplife")
+    bt = threading.Thread(target=lambda: _guard(build, binres))
+    bt.start()
+    if replay_obj is None:
+        design_level(ctx, gl)
+        scripts = gen(ctx, gl)
+        nrand = 10 if quick else 60
+        scripts += [{"id": 0, "cfg": {"plan": "random"}, "steps": s_} for s_ in random_scripts(ctx.rng, nrand, 10 if quick else 14)]
+    else:
+        scripts = [replay_obj["script"]]
+    for i, s_ in enumerate(scripts):
+        s_["id"] = i
+    bt.join()
+    if binres.get("err"):
+        raise binres["err"]
+    gl["wall_design_gen_build_s"] = round(time.time() - t0, 1)
+    # degrade: what is left of the budget decides how many scripts are replayed (about 2.5 s per script and shard at moderate load)
+    shards = 4 if quick else 6
+    left = BUDGET_S - (time.time() - t0) - 60
+    cap = max(len(NAMED), int(max(left, 30) / 3.0 * shards))
+    if replay_obj is None and len(scripts) > cap:
+        keep = scripts[:len(NAMED)] + sorted(ctx.rng.sample(scripts[len(NAMED):], cap - len(NAMED)), key=lambda s_: s_["id"])
+        gl["degraded"].append("replayed %d of %d generated scripts (time budget)" % (len(keep), len(scripts)))
+        scripts = keep
+    sid = {s_["id"]: s_ for s_ in scripts}
+
+    t1 = time.time()
+    events, crashes = replay(ctx, binres["bin"], scripts, "main", shards, gl)
+    byid = dict(vf.split_traces(events))
+    gl["wall_replay_s"] = round(time.time() - t1, 1)
+    blocks = [(s_["id"], byid[s_["id"]]) for s_ in scripts if s_["id"] in byid and byid[s_["id"]] and byid[s_["id"]][-1].get("ev") == "end"]
+    gl["scripts_replayed"] = len(blocks)
+    gl["steps_replayed"] = sum(len(e) - 2 for _, e in blocks)
+    gl["concurrent_pairs"] = sum(1 for _, e in blocks for x in e if x.get("ev") == "run" and len(x["ops"]) == 2)
+    gl["gated_steps"] = sum(1 for _, e in blocks for x in e if x.get("ev") in ("start", "step"))
+    ctx.evaluations += len(blocks)
+    if len(blocks) + len(crashes) < len(scripts) - 2:
+        raise vf.Infra("driver did not record every script (%d of %d)" % (len(blocks), len(scripts)))
+
+    # ---- C19: a recovered panic of a service method, or a request that kills the process; only after a solo reproduction
+    gl["panics"] = []
+    suspects = []
+    for bid, evs in blocks:
+        for p in _panics(evs):
+            suspects.append((bid, "recovered panic in %s(%s) at %s: %s" % (p[1], p[2], p[4], p[3]), p))
+            break
+    for c in crashes:
+        suspects.append((c["script"]["id"], "the driver process died while script ran: " + " | ".join(l for l in c["tail"].splitlines() if l.startswith(("panic:", "fatal error:")))[:300], None))
+    for (bid, what, p) in suspects[:6]:
+        ev2, cr2 = replay(ctx, binres["bin"], [sid[bid]], "solo%d" % bid, 1, gl)
+        b2 = dict(vf.split_traces(ev2)).get(bid, [])
+        again = bool(_panics(b2)) or bool(cr2)
+        rec = {"script": _text(sid[bid]), "what": what, "reproduced": again}
+        gl["panics"].append(rec)
+        if again:
+            ctx.violation("group lifecycle: a request makes a service method panic (%s); script: %s" % (what, _text(sid[bid])),
+                          {"family": "group_lifecycle", "part": "group_lifecycle", "script": sid[bid], "observed": b2 or byid.get(bid, []),
+                           "stack": (p[5] if p else (cr2[0]["tail"][-1500:] if cr2 else ""))})
+        else:
+            ctx.drift.append({"trace": "group_lifecycle", "what": "panic / process death not reproduced on a solo run: " + what, "script": rec["script"]})
+
+    # ---- conformance (drift) and the design clauses on observed values (observations)
+    t2 = time.time()
+    accepted, drift = conformance(ctx, blocks, "gl")
+    acc = set(accepted)
+    gl["traces_accepted_full_spec"] = len(accepted)
+    gl["traces_rejected_full_spec"] = len(drift)
+    ctx.traces_validated += len(accepted)
+    ctx.extra["conformant_traces"] = ctx.extra.get("conformant_traces", 0) + len(accepted)
+    for dr in drift:
+        rec = {"trace": "group_lifecycle", "script": _text(sid[dr["id"]]), "info": {"step": dr["at"], "line": {k: v for k, v in (dr["line"] or {}).items() if k != "st"},
+               "st": (dr["line"] or {}).get("st")}}
+        ctx.drift.append(rec)
+        vf.log("model drift (group lifecycle) script %s step %s: %s" % (dr["id"], dr["at"], json.dumps(rec["info"]["line"], sort_keys=True)[:300]))
+    if drift:
+        gl["first_rejected"] = {"script": _text(sid[drift[0]["id"]]), "step": drift[0]["at"], "line": drift[0]["line"]}
+    bad = monitor(ctx, blocks, "gl")
+    obs = {}
+    for (bid, at, clauses, line) in bad:
+        for c in clauses:
+            if c == "P1":
+                continue        # handled above (solo reproduction)
+            o = obs.setdefault(c, {"clause": CLAUSE_TEXT[c], "lines": 0, "scripts": set(), "in_conformant_traces": 0, "explained_by": EXPLAINED.get(c)})
+            o["lines"] += 1
+            o["scripts"].add(bid)
+            if bid in acc:
+                o["in_conformant_traces"] += 1
+    for c, o in sorted(obs.items()):
+        first = min(o["scripts"])
+        o["first_script"] = _text(sid[first])
+        nonconf = sorted(b for b in o["scripts"] if b not in acc)
+        o["scripts"] = len(o["scripts"])
+        if o["explained_by"] is None or nonconf:
+            # a clause the model of the code satisfies fails on the real code (or fails outside the behaviours of the model): drift
+            w = nonconf[0] if nonconf else first
+            ctx.drift.append({"trace": "group_lifecycle", "clause": c, "what": CLAUSE_TEXT[c], "script": _text(sid[w]),
+                              "note": "unexplained by the named deviations of GroupLife.tla" if o["explained_by"] is None else "seen in a trace the full spec rejects"})
+    gl["observations"] = obs
+    ends = [e[-1] for _, e in blocks]
+    gl["goroutines_left_after_close"] = {"max_immediately": max([x["leak1"] - x["leak0"] for x in ends] or [0]),
+                                         "max_settled": max([x["leak2"] - x["leak0"] for x in ends] or [0]),
+                                         "frames": sorted(set(f for x in ends for f in x.get("left", [])))[:8]}
+    ctx.distinct_nontrivial += len(set(b for (b, _, _, _) in bad))
+    if not quick and accepted and replay_obj is None:
+        if time.time() - t0 < BUDGET_S - 45:
+            gl["binding_selftest"] = selftest(ctx, [(b, e) for b, e in blocks if b in acc])
+        else:
+            gl["degraded"].append("binding self-test skipped (time budget)")
+    gl["wall_validation_s"] = round(time.time() - t2, 1)
+    gl["wall_s"] = round(time.time() - t0, 1)
+    if len(ctx.samples) < 8:
+        ctx.samples.append("group lifecycle: %d scripts replayed on a real service (%d gated steps, %d concurrent pairs), %d accepted by GroupLife.tla, observations %s" % (
+            len(blocks), gl["gated_steps"], gl["concurrent_pairs"], len(accepted), {c: o["scripts"] for c, o in sorted(obs.items())}))
+
+
+def _guard(f, box):
+    try:
+        f()
+    except BaseException as e:      # noqa
+        box["err"] = e
+
+
+def selftest(ctx, good):
+    """corrupt one observed field of one line / drop one line: the full spec must reject both"""
+    cand = [(b, e) for b, e in good if any(x.get("ev") == "step" and x.get("op") == "deact" and x.get("r") == "ok" for x in e)]
+    if not cand:
+        return {"skipped": "no accepted trace with a gated deactivation"}
+    bid, evs = cand[0]
+    evs = [_slim(x) for x in evs]
+    k = next(i for i, x in enumerate(evs) if x.get("ev") == "step" and x.get("op") == "deact" and x.get("r") == "ok")
+    cor = json.loads(json.dumps(evs))
+    g = cor[k]["g"]
+    cor[k]["st"]["op"][g] = not cor[k]["st"]["op"][g]
+    ok, _, _ = _tlc_trace(ctx, CONF, _flat([(bid, cor)])[0], "self_corrupt")
+    drop = evs[:k] + evs[k + 1:]
+    ok2, _, _ = _tlc_trace(ctx, CONF, _flat([(bid, drop)])[0], "self_drop")
+    if ok or ok2:
+        raise vf.Infra("binding self-test: the full spec accepted a corrupted (%s) / truncated (%s) trace" % (ok, ok2))
+    return {"corrupted_field_rejected": True, "dropped_line_rejected": True}
